@@ -11,7 +11,7 @@ import numpy as np
 from vlib import calgen as CG
 from vlib import gen as G
 from vlib import state as S
-from vlib.core import jhash, rng_for
+from vlib.core import quiet, jhash, rng_for
 from vlib.runcfg import run
 
 ID = "C01"
@@ -129,7 +129,18 @@ def run_case(desc, ctx):
     if i % 4 == 1:
         variants.append(("verbose", {"verbose": True}))
     if (i % 4 == 2 or extreme) and not rl:
-        variants.append(("folder", {"folder": str(ctx.scratch() / "ck")}))
+        fdir = ctx.scratch() / "ck"
+        if i % 3 == 0:
+            # the folder holds the checkpoint of an unrelated earlier calibration: saving there must not change what this run computes
+            try:
+                prng2 = rng_for(desc["seed"], 1, 2 * 10**6 + i)
+                other_cfg = CG.gen_config(prng2, kinds=G.HISTORY_FREE, n_samplers=2, max_bs=2)
+                with quiet():
+                    CG.build_calibrator(other_cfg, folder=str(fdir)).calibrate(2)
+                c["folder_variant_into_used_folder"] = 1
+            except Exception:  # noqa: BLE001
+                pass
+        variants.append(("folder", {"folder": str(fdir)}))
     for name, kw in variants:
         r = run(cfg, calls, **kw)
         r.pop("cal")
